@@ -54,4 +54,23 @@ CHECKS = {
            "argmax/argmin theorems in Props/C16.v when merged.", "5/C16", "Coq fold theorems + correspondence with wrapped criteria", _T),
  "C17": _c("Relevance marking tied by correspondence; learn conservation / best-model and prune sub-multiset decided on the real arrays; Learn model theorems in Props/C17.v when merged.",
            "5/C17", "Coq model + correspondence with recorded draws; multiset oracles", _T),
+
+ "C04": _c("Props/C04_knn.v: KNN-supervised final clustering (forced prototypes) assigns every training sample its own label for any data and ties (cross-label offers are never accepted); "
+           "Props/C04.v (when merged): tie-free supervised training gives every sample its own label and predicting a training row returns its label, derived from C01+C02+C03. "
+           "Checked on the implementation for every eligible metric of the axiom table.", "5/C04", "Coq proof combining the Prim, Dijkstra and scan theorems; model/impl correspondence", _T),
+ "C09": _c("Props/C09_sup.v: predict_batch = map predict_one and only the relevance flags of the model change; Props/C09_knn.v (when merged): the KNN batch with its threaded scratch array "
+           "equals the pointwise map. All four predicts tied by correspondence on batches with duplicates/permutations.", "5/C09", "Coq proof (induction over the batch); model/impl correspondence on batches", _T),
+ "C10": _c("Every algorithm of the model takes its weights as a function argument; Props/C10_logic.v (when merged): pointwise-equal weight functions give equal outputs and the indexed matrix read equals "
+           "the direct metric call when the index arrays identify the rows. End-to-end: models through a distance file written by pre_compute_distance (.txt/.csv, index arrays) compared "
+           "bit-for-bit with the direct models; get_distances checked.", "5/C10", "Coq proof (weight extensionality / parametricity) + end-to-end file correspondence",
+           _T + "Partial: np.savetxt/np.loadtxt round trip of float64 is validated on every matrix entry, not proved."),
+ "C11": _c("Props/C11_rescale.v (when merged): a strictly increasing map of the weights leaves prototypes, predecessors, labels, order and predictions unchanged and maps costs; Props/C11_perm.v (when merged): "
+           "permutation invariance on tie-free data from MST uniqueness + minimax costs + zero resubstitution error; Props/C11_family.v: the five Euclidean-family closed forms are strictly increasing "
+           "transforms of the squared Euclidean one. Checked on (instance, permuted instance) pairs and on the five identifiers.", "5/C11",
+           "Coq proof (parametricity free theorem / uniqueness arguments) + paired-run correspondence", _T),
+ "C19": _c("Props/C19.v: with pickle as an injective encoding (Section hypothesis), load(fresh, save(m)) has exactly m's attribute map whenever fresh's attributes exist in m, save leaves m unchanged, "
+           "and predict is a function of the attribute map; regenerated facts: save/load have the modelled shape, constructors create the base attributes, no attribute is ever deleted. "
+           "Correspondence: state abstraction and predictions of original / original-after-save / loaded compared field by field.", "5/C19",
+           "Coq proof over a dict-update model conditional on the pickle round trip; regenerated shape facts; save/load correspondence",
+           "Trusted: pickle round trip (exercised every run, hypothesis of the theorems); translator/attrs.py."),
 }
